@@ -193,6 +193,30 @@ def q_step_cp(quoter, S, p):
     return utf8_unit(ch), 1
 
 
+def slash_stable_name(name):
+    """quoters that never produce a '/' the input does not have: all but the re-quoters of
+    components in which '/' is an unprotected literal (they decode %2F)"""
+    return not (QUOTERS[name][1] and "/" in literal_set(name) and "/" not in PROTECTED[name])
+
+
+def is_slash_stable(quoter):
+    return slash_stable_name(INSTANCE_NAME[id(quoter)])
+
+
+def slash_stable(quoter, B, p):
+    return 0 <= p and p < len(B) and is_slash_stable(quoter)
+
+
+def lemma_no_new_slash(quoter, B, p):
+    """C13 (with_name / with_suffix keep the number of segments): a unit contains '/' only when
+    the consumed character is '/'"""
+    unit, k = q_step(quoter, B, p)
+    has = False
+    for i in range(len(unit)):
+        has = has or unit[i] == 47
+    return (not has) or code_at(B, p) == 47
+
+
 def skippable(quoter, ch):
     """a character that is its own canonical unit in every context: an ASCII literal of the
     component other than '%' (and, in a query, other than the space)"""
